@@ -122,7 +122,7 @@ CHECKS = {
               "any suffix, and the parsed message type is the type on the wire (a confirm is never returned as a request). LDAP decoding goes "
               "through asn1crypto (result code and message type: implementation side, against an independent BER encoder); the library's "
               "own LDAP framing function is modelled (CpModel/Opp/Ldap.lean) and proved to return the TLV length for every BER length "
-              "form - short, long on 1..127 octets, minimal or zero-padded (CpProps/C09Ldap.lean, 8 theorems; the two RFC 4511 encodings of the spec are consumed completely whatever follows) - and run against the "
+              "form - short, long on 1..127 octets, minimal or zero-padded (CpProps/C09Ldap.lean, 9 theorems; the two RFC 4511 encodings of the spec are consumed completely whatever follows) - and run against the "
               "model on generated headers; conformant messages in every length form are parsed with and without following octets. The one deviation left is the X.224 reference "
               "order, pinned by the repository tests (known finding, visible false statement with witness)."),
         design='Appendix B (OPP)', note=CLS_NOTE),
